@@ -143,11 +143,13 @@ Upd(i, v, m) ==
   /\ heap' = m.h
   /\ bad'  = (bad \/ m.bad)
 
-(* mpt_identifier_set(id, name, len) / set_name: mode "cstr" passes len = -1 *)
-Set(i, s, mode) ==
-  LET arg == [id |-> i, data |-> s, mode |-> mode] IN
+(* mpt_identifier_set(id, name, len) / set_name: mode "cstr" passes len = -1. *)
+(* fail = 1: the next allocation fails -- a call that needs a block is       *)
+(* refused and changes nothing, one that does not is not affected.          *)
+Set(i, s, mode, fail) ==
+  LET arg == [id |-> i, data |-> s, mode |-> mode, fail |-> fail] IN
   /\ Live(i) /\ (mode = "cstr" => NoZero(s))
-  /\ IF Len(s) + 1 > Limit THEN Refuse("set", arg)
+  /\ IF Len(s) + 1 > Limit \/ (fail = 1 /\ Len(s) + 1 > st[i].max) THEN Refuse("set", arg)
      ELSE /\ Upd(i, Text(s), DSet(st[i], heap, Append(s, 0), 1))
           /\ Answer("set", arg, "ok", "na", 0, "na")
 
@@ -159,13 +161,15 @@ SetRaw(i, n) ==
      ELSE /\ Upd(i, Raw(n), DSet(st[i], heap, Zeros(n), 0))
           /\ Answer("setraw", arg, "ok", "na", 0, "na")
 
-(* mpt_identifier_copy(id, from) / operator= *)
-Copy(i, j) ==
-  LET arg == [id |-> i, src |-> j] IN
+(* mpt_identifier_copy(id, from) / operator= ; fail = 1: the next allocation fails *)
+Copy(i, j, fail) ==
+  LET arg == [id |-> i, src |-> j, fail |-> fail] IN
   /\ Live(i) /\ Live(j)
-  /\ IF i = j THEN Same
-     ELSE Upd(i, name[j], DCopy(st[i], heap, RData(st[j], heap), st[j].cs))
-  /\ Answer("copy", arg, "ok", "na", 0, "na")
+  /\ IF i # j /\ fail = 1 /\ st[j].len > st[i].max
+     THEN Same /\ Answer("copy", arg, "any", "na", 0, "na")      \* operator= has no answer; nothing may change
+     ELSE /\ IF i = j THEN Same
+             ELSE Upd(i, name[j], DCopy(st[i], heap, RData(st[j], heap), st[j].cs))
+          /\ Answer("copy", arg, "ok", "na", 0, "na")
 
 (* mpt_identifier_copy(id, 0) clears *)
 CopyNull(i) ==
@@ -225,13 +229,16 @@ Make(i, size, how, m) ==
   /\ Answer("make", [id |-> i, size |-> size, how |-> how], "ok", "na", 0, "na")
 
 (* construct slot i as a copy of slot j (type_traits init / copy           *)
-(* constructor); j = 0: default construction.                              *)
-TInit(i, j) ==
+(* constructor); j = 0: default construction.  fail = 1: the allocation a  *)
+(* long name needs fails -- the new identifier is empty.                   *)
+TInit(i, j, fail) ==
+  LET arg == [id |-> i, src |-> j, fail |-> fail] IN
   /\ ~Live(i) /\ (j # 0 => Live(j))
-  /\ IF j = 0
-     THEN Upd(i, Raw(0), [r |-> FreshRec(TraitsMax, 1), h |-> heap, bad |-> FALSE])
-     ELSE Upd(i, name[j], DCopy(FreshRec(TraitsMax, 1), heap, RData(st[j], heap), st[j].cs))
-  /\ Answer("tinit", [id |-> i, src |-> j], "ok", "na", 0, "na")
+  /\ IF j = 0 \/ (fail = 1 /\ st[j].len > TraitsMax)
+     THEN /\ Upd(i, Raw(0), [r |-> FreshRec(TraitsMax, 1), h |-> heap, bad |-> FALSE])
+          /\ Answer("tinit", arg, IF j = 0 THEN "ok" ELSE "any", "na", 0, "na")
+     ELSE /\ Upd(i, name[j], DCopy(FreshRec(TraitsMax, 1), heap, RData(st[j], heap), st[j].cs))
+          /\ Answer("tinit", arg, "ok", "na", 0, "na")
 
 ---------------------------------------------------------------------------
 InitWith(ms) ==
@@ -247,13 +254,13 @@ Init == \E ms \in [Slots -> Maxes] : InitWith(ms)
 TextOf(i) == IF name[i].kind = "text" THEN name[i].s ELSE <<>>
 
 Next ==
-  \/ \E i \in Slots, s \in Strings : Set(i, s, "len")
-  \/ \E i \in Slots, n \in Lens : Set(i, P1(n), "cstr") \/ Set(i, P2(n), "cstr")
+  \/ \E i \in Slots, s \in Strings : Set(i, s, "len", 0)
+  \/ \E i \in Slots, n \in Lens : Set(i, P1(n), "cstr", 0) \/ Set(i, P2(n), "cstr", 0) \/ Set(i, P1(n), "len", 1)
   \/ \E i \in Slots, n \in Lens : SetRaw(i, n)
-  \/ \E i \in Slots, j \in Slots : Copy(i, j) \/ Inequal(i, j)
+  \/ \E i \in Slots, j \in Slots : Copy(i, j, 0) \/ Copy(i, j, 1) \/ Inequal(i, j)
   \/ \E i \in Slots : CopyNull(i) \/ Fini(i)
   \/ \E i \in Slots, m \in Maxes : Make(i, m + 4, "init", m)
-  \/ \E i \in Slots, j \in 0..NId : TInit(i, j)
+  \/ \E i \in Slots, j \in 0..NId : TInit(i, j, 0) \/ TInit(i, j, 1)
   \/ \E i \in Slots, j \in Slots : \E s \in Near(TextOf(j)) : Compare(i, s, "len")
   \/ \E i \in Slots, j \in Slots : Compare(i, TextOf(j), "cstr") \/ Compare(i, Append(TextOf(j), 7), "cstr")
   \/ \E j \in Slots, pos \in {-2, -1, 0, 1, 2} : \E s \in {TextOf(j), Append(TextOf(j), 7)} : Locate(s, pos)
@@ -285,11 +292,12 @@ NoBadFree == ~bad
 CmpAgrees == obs.exp.eq \in {"equal", "differs"} => obs.dsg = obs.exp.eq
 
 (* action properties *)
+(* a refusal for lack of memory happens only where a block is needed *)
 SetReadsBack == [][(obs'.a = "set" /\ obs'.exp.ret = "ok") =>
                      /\ RData(st'[obs'.arg.id], heap') = Append(obs'.arg.data, 0)
                      /\ st'[obs'.arg.id].len = Len(obs'.arg.data) + 1
                      /\ \A k \in Slots \ {obs'.arg.id} : name'[k] = name[k]]_vars
-CopyFaithful == [][obs'.a = "copy" =>
+CopyFaithful == [][(obs'.a = "copy" /\ obs'.exp.ret = "ok") =>
                      /\ name'[obs'.arg.id] = name[obs'.arg.src]
                      /\ \A k \in Slots \ {obs'.arg.id} : name'[k] = name[k] /\ st'[k] = st[k]]_vars
 RefuseFrame  == [][obs'.exp.ret = "refused" => (name' = name /\ st' = st /\ heap' = heap)]_vars
